@@ -78,10 +78,11 @@ func genPlan(r *gen.Rand) plan {
 }
 
 type engine struct {
-	e       *ev.Env
-	g       *rigs
-	sampled [nSources]int
-	tripsBy [nSources]int
+	e         *ev.Env
+	g         *rigs
+	sampled   [nSources]int
+	tripsBy   [nSources]int
+	lastTotal *probe // the probe of the latest totalRun (families that also count what happened)
 }
 
 // judge runs one round trip and reports a violation if the law does not hold.
@@ -342,6 +343,7 @@ func run(e *ev.Env) {
 	en.totality()
 	en.mustFail()
 	en.masked()
+	en.notDoc()
 	en.modeSeq()
 	en.afterFail() // last: see followup.go
 
